@@ -29,6 +29,7 @@ def run(ctx, sess):
     ctx.rule('C08.4', 'never outside the ring, never onto the oldest message: every hand-out is bounded by size + 8 <= ring size or size + 4 < read index (shared with C10.15), and the indices are reset to 0 only on the path on which head == tail (ring empty)')
     ctx.rule('C08.5', 'count: incremented on every path to a non-NULL return of the allocator, decremented only when pop delivers a message, zeroed by clear')
     ctx.rule('C08.6', 'peek and pop do not store into the ring memory; the allocator stores only size prefixes and the wrap marker')
+    ctx.rule('C08.7', 'no stale index: a local copy of the read or write index that is used to compute the value stored back into that index is taken after every call that can itself store that index (peek moves the read index past a wrap marker)')
     fns = {f.name: f for f in P.fns_in(F)}
     for need in ('jls_mrb_alloc', 'jls_mrb_peek', 'jls_mrb_pop', 'jls_mrb_clear'):
         if need not in fns:
@@ -246,3 +247,51 @@ def run(ctx, sess):
         if l0.get('op') in ('sub', 'un'):
             wr.append(show(ev.e)[:40])
     ctx.ob('C08.6', not wr, alloc.name, 'the allocator writes the ring only through the prefix encoder', alloc.where(), 'direct stores: %s' % wr if wr else '%s only' % ENC)
+
+
+    # ---- C08.7
+    def stores_field(g, field, depth=0):
+        for ev in g.stores():
+            l0 = strip_casts(ev.store_parts()[0])
+            if l0.get('op') == 'member' and l0.get('field') == field:
+                return True
+        if depth < 2:
+            for c in g.calls():
+                if c.callee in fns and fns[c.callee] is not g and stores_field(fns[c.callee], field, depth + 1):
+                    return True
+        return False
+    n7 = 0
+    for fn in fns.values():
+        for field in ('head', 'tail'):
+            snaps = []
+            for ev in fn.events():
+                if ev.k not in ('decl', 'store') or ev.e is None:
+                    continue
+                rhs = ev.e if ev.k == 'decl' else ev.store_parts()[1]
+                name = ev.name if ev.k == 'decl' else strip_casts(ev.store_parts()[0]).get('name')
+                r0 = strip_casts(rhs) if rhs is not None else None
+                if name and r0 is not None and r0.get('op') == 'member' and r0.get('field') == field and (ev.k == 'decl' or ev.store_parts()[2] == '='):
+                    snaps.append((ev, name))
+            backs = [ev for ev in fn.stores() if strip_casts(ev.store_parts()[0]).get('op') == 'member' and strip_casts(ev.store_parts()[0]).get('field') == field
+                     and ev.store_parts()[1] is not None]
+            for sn, name in snaps:
+                for bk in backs:
+                    if not any(m.get('op') == 'ref' and m.get('name') == name for m in walk(bk.store_parts()[1])):
+                        continue
+                    n7 += 1
+                    movers = [c for c in fn.calls() if c.callee in fns and stores_field(fns[c.callee], field)]
+                    w = None
+                    for mv in movers:
+                        # snapshot -> mover -> store back, with no new snapshot in between
+                        w1 = find_path(fn, sn, lambda e2, facts: 'target' if e2 is mv else None, refine=False)
+                        if w1 is None:
+                            continue
+                        w2 = find_path(fn, mv, lambda e2, facts: 'stop' if any(e2 is s2 for s2, n2 in snaps if n2 == name) else ('target' if e2 is bk else None), refine=False)
+                        if w2 is not None:
+                            w = (mv, w2)
+                            break
+                    ctx.ob('C08.7', w is None, fn.name, 'local copy %s of the %s index' % (name, 'read' if field == 'tail' else 'write'), sn.where(),
+                           'taken after every call that can move the index' if w is None else
+                           '%s is copied before %s(), which can itself store self->%s (past a wrap marker), and is then used to compute the value stored back: the index goes back to the stale position' % (name, w[0].callee, field),
+                           w[1].render() if w else None)
+    ctx.floor('index snapshots that are stored back', n7, 2)
